@@ -14,7 +14,7 @@ NS = "Zeep.Bind."
 THEOREMS = [NS + t for t in ("c12_unknown_key_refused", "c12_unknown_key_any_depth", "c12_surplus_positional_refused", "c12_duplicate_refused",
                               "c12_occurs_refused", "c12_missing_required_refused", "c12_missing_required_attribute_refused",
                               "c12_conventions_agree", "c12_skip_omits", "c12_nil_marks", "c12_faithful")] + [
-    "Zeep.BindKw." + t for t in ("c12_two_choice_branches_refused", "c12_kw_unknown_refused", "c12_kw_accepted_keeps_values", "c12_kw_conforming_accepted")]
+    "Zeep.BindKw." + t for t in ("c12_two_choice_branches_refused", "c12_kw_unknown_refused", "c12_kw_accepted_keeps_values", "c12_kw_conforming_accepted", "c12_choice_rendered_faithfully")]
 LEVEL = "proof"
 MANIFEST = dict(
     engine="A: lean/ZeepModel/Xsd/Bind.lean, lean/ZeepModel/Xsd/BindKw.lean (+ harness/valgen.py, harness/kwtie.py)",
@@ -36,9 +36,11 @@ MANIFEST = dict(
          "For signatures with non-repeating choices (any number of branches, anywhere in the sequence): values for two branches of one choice are "
          "refused however the unused branches are spelt (c12_two_choice_branches_refused), an unknown keyword is refused (c12_kw_unknown_refused), an "
          "accepted call binds every keyword whose value counts as given with the caller's value (c12_kw_accepted_keeps_values) and a call with "
-         "declared keys and at most one valued branch per choice is accepted (c12_kw_conforming_accepted); the model is run against "
-         "_process_signature on every spelling (absent / None / [] / value) of every name of five signature shapes, unknown keys and shuffled key order.",
-    note="Repeating choices, choices with sequence branches, all, group and wildcard members are outside the Lean models (refusal is checked on the implementation only). On the implementation, faithfulness of an "
+         "declared keys and at most one valued branch per choice is accepted (c12_kw_conforming_accepted); the branches of a choice are element declarations or sequences of element declarations (with optional members); "
+         "c12_choice_rendered_faithfully adds the rendering side (a model of Choice.render / _find_element_to_render / Sequence.accept): for an accepted call in which one branch "
+         "was given values, exactly that branch is rendered, every value given for it is emitted and nothing else is - a required member left out raises ValidationError, never a silent omission; "
+         "the model is run against _process_signature and against the XML zeep renders on every spelling (absent / None / [] / value) of every name of eight signature shapes, unknown keys and shuffled key order.",
+    note="Repeating choices, nested choices, all, group and wildcard members are outside the Lean models (refusal is checked on the implementation only). On the implementation, faithfulness of an "
          "accepted call is judged against the reference serialisation of what was supplied (as in C02).",
     design_ref="DESIGN.md sections 5 and 6, C12",
 )
@@ -841,6 +843,20 @@ def replay(ctx, payload):
             got, out = str(e)[:80], "refuse"
         exp = kwtie.kw_expect(items, c["attrs"], kw)
         ok = out == exp and (out == "refuse" or all(got.get(k) == v for k, v in kw if not (v is None or v == [])))
+        if ok and out == "accept" and not any(v == [] for _, v in kw):
+            # the rendering side: the XML of every choice is the data the caller gave for it (or a ValidationError)
+            el = zs.get_element("{urn:kw}sig")
+            try:
+                parent = etree.Element("p")
+                el.render(parent, el(**dict(kw)))
+                for kind, x in items:
+                    if kind == "choice":
+                        cnames = [kwtie.nm(m) for b in x for m in b]
+                        r = {etree.QName(ch).localname: ch.text or "" for ch in parent[0] if etree.QName(ch).localname in cnames}
+                        if r != {k: v for k, v in kw if v is not None and k in cnames}:
+                            return False, "the XML of a choice is not the data given for it: %r" % (r,)
+            except Exception:  # noqa
+                pass
         return ok, "keyword call %s (expected %s): %r" % (out, exp, got)
     if payload.get("case", payload).get("kind") == "inplace-edit":
         r = Result()
